@@ -13,7 +13,7 @@ import iolib, gens
 from iolib import RunDir, run_cli, sig, shim_env, read_trace, le32
 from vlib import Oracle, hx, md5
 
-THEOREMS = ["C14_exit0_sound", "C14_rm_order", "C14_rm_order_compress", "C14_multi_exit0", "C14_truncation", "C14_truncation_exit", "C14_pipe_no_exception", "C14_lz4f_st_concrete_sound", "C14_lz4f_st_fresh_sound"]
+THEOREMS = ["C14_exit0_sound", "C14_rm_order", "C14_rm_order_compress", "C14_multi_exit0", "C14_truncation", "C14_truncation_exit", "C14_pipe_no_exception", "C14_lz4f_st_concrete_sound", "C14_lz4f_st_fresh_sound", "C14_hint_within_frame_refuted"]
 CORRESPONDENCE = ["IoLz4f.lz4f_st_run (concrete LZ4IO_decompressLZ4F loop over Model.FrameD) == lz4 -d -c / -t of the ST build under the stdio tracer: sequence of fread (request, return) pairs, fwrite sizes, "
                   "exit code when the loop exits the process (62/66/67/68), decoded bytes; and == Io.lz4f_st (abstract step over frame_decode) on status, output and bytes left in the source",
                   "Io.decompress (ST model) == lz4 -d/-t of the ST build under the same input, seekable flag and I/O fault: exit status class, output on exit 0, source removal",
@@ -62,6 +62,7 @@ def gen_cases(tier, seed):
     for i in range({"quick": 16, "search": 16, "thorough": 64}[tier]):
         cases.append({"kind": "fault", "op": ["dec", "dec", "test", "comp", "legacy", "dec_stdout", "dec_multi", "comp_multi"][i % 8],
                       "kinds": rng.choice(shapes), "sseed": rng.randrange(1 << 48), "sparse": (i // 8) % 2 == 1})
+    cases.append({"kind": "stloop_f21", "sseed": 21})
     for i in range({"quick": 10, "search": 20, "thorough": 40}[tier]):
         cases.append({"kind": "stloop", "sseed": rng.randrange(1 << 48), "big": i % 3 == 2})
     if tier == "thorough":
@@ -713,11 +714,33 @@ def stloop_one(acc, st, data, tag, frame_len=None, content=None, test=False, rpo
         acc.fail("corr_fail", "unexpected exit code %d of the loop model (%s)" % (code, tag), **det); return
     acc.keys.add(hashlib.sha1(("%s|%d|%s|%s" % (md5(data), len(data), test, rpos)).encode()).hexdigest())
 
+def half_compressible(rng, n):
+    out = bytearray()
+    while len(out) < n:
+        out += rng.randbytes(200) + b"A" * 200
+    return bytes(out[:n])
+
+def case_stloop_f21(acc, st, case, rng):
+    """F21: with block checksums the hint of dstage_storeCBlock counts the checksum twice; on a frame without content
+    checksum whose last compressed block arrives in two pieces the ST loop freads 4 bytes beyond the frame and drops them"""
+    ctx = st["ctx"]
+    for bs in ("-B7", "-B4"):
+        A = half_compressible(rng, 300000); B = half_compressible(rng, 100000)
+        frames = []
+        for raw in (A, B):
+            rc, fr, err = run_cli(ctx["ST"], [bs, "-BX", "--no-frame-crc", "-c", "-q"], stdin_bytes=raw)
+            if rc != 0:
+                raise RuntimeError("lz4 failed to compress: " + err[-200:])
+            frames.append(fr)
+        acc.stats["stloop_f21"] += 1
+        stloop_one(acc, st, frames[0] + frames[1], "F21 two frames %s -BX --no-frame-crc" % bs, frame_len=len(frames[0]), content=A)
+
 def case_stloop(acc, st, case, rng):
     ctx = st["ctx"]
     if case.get("big"):
         raw = gens.data(rng, rng.choice(["runs", "random", "period", "zerorich", "barely"]), rng.choice([70000, 140000]))
-        cargs = rng.choice([["-1"], ["-9"], ["-BD", "-B4"], ["-BX"], ["--content-size"], ["--no-frame-crc"], ["-B5", "-BD"], ["-B7"]])
+        cargs = rng.choice([["-1"], ["-9"], ["-BD", "-B4"], ["-BX"], ["--content-size"], ["--no-frame-crc"], ["-B5", "-BD"], ["-B7"],
+                            ["-BX", "--no-frame-crc", "-B7"], ["-BX", "--no-frame-crc", "-B5"], ["-BX", "--no-frame-crc", "-B4"], ["-BX", "-B6"]])
         rc, fr, err = run_cli(ctx["ST"], cargs + ["-c", "-q"], stdin_bytes=raw)
         if rc != 0:
             raise RuntimeError("lz4 failed to compress: " + err[-200:])
@@ -761,9 +784,13 @@ def run_case(st, case):
         elif k == "rm_multi": case_rm_multi(acc, st, case, rng)
         elif k == "fault": case_fault(acc, st, case, rng)
         elif k == "stloop": case_stloop(acc, st, case, rng)
+        elif k == "stloop_f21": case_stloop_f21(acc, st, case, rng)
     finally:
         st["rd"].clean()
     return acc.out()
 
+F21_OPEN = True     # set to False once lib/lz4frame.c (dstage_storeCBlock hint) is repaired: the cases then are plain regressions
 def classify(r):
-    return None        # C14 has no known, unrepaired finding (F2, F3, F8, F9, F11 are fixed in /repo; F4 belongs to C15)
+    if F21_OPEN and "bytes beyond the end of the frame" in str(r.get("what", "")):
+        return "F21"       # LZ4F hint 4 bytes too large with block checksums: ST lz4 -d loses the start of what follows the frame
+    return None
